@@ -9,7 +9,7 @@ namespace {
 using namespace BaseGraph;
 
 struct Counters {
-    uint64_t largeIndexGraphs = 0, roundTrips = 0, linesParsedIndependently = 0, formatFiles = 0, commentLines = 0, whitespaceRuns = 0, nameFiles = 0, namesChecked = 0, labelReads = 0,
+    uint64_t bigFiles = 0, largeIndexGraphs = 0, roundTrips = 0, linesParsedIndependently = 0, formatFiles = 0, commentLines = 0, whitespaceRuns = 0, nameFiles = 0, namesChecked = 0, labelReads = 0,
              fuzzInputs = 0, fuzzReturned = 0, fuzzThrew = 0, zeroVertexGraphs = 0, noEdgeGraphs = 0, isolatedTails = 0, filesWithoutFinalNewline = 0;
     uint64_t fuzzByExc[6] = {0};
     ObsCounters oc;
@@ -133,7 +133,8 @@ template <template <class...> class GT, class L> void roundtrip(Reporter &R, uin
     constexpr bool directed = Dir<GT>::value;
     std::string cls = std::string(Dir<GT>::name()) + "<" + lname<L>() + ">";
     Rng r = caseRng(R.args.seed, hashStr(cls + "rt"), sub);
-    GraphSpec s = sub % 4 == 3 ? ioSpecSparse(r, directed) : ioSpec(r, directed);
+    GraphSpec s = sub % 4 == 3 ? ioSpecSparse(r, directed) : (sub % 40 == 6 ? ioSpecBig(r, directed) : ioSpec(r, directed));
+    if (sub % 40 == 6) ++C.bigFiles;
     if (s.n > 64) ++C.largeIndexGraphs;
     if (s.n == 0) ++C.zeroVertexGraphs;
     if (s.edges.empty()) ++C.noEdgeGraphs;
@@ -541,6 +542,7 @@ void flush(Reporter &R) {
     C.oc.flush(R);
     R.count("text_round_trips", C.roundTrips);
     R.count("graphs_with_large_vertex_indices", C.largeIndexGraphs);
+    R.count("files_of_thousands_of_lines_round_tripped", C.bigFiles);
     R.count("written_lines_parsed_independently", C.linesParsedIndependently);
     R.count("well_formed_files_loaded", C.formatFiles);
     R.count("comment_lines_generated", C.commentLines);
